@@ -565,6 +565,55 @@ def run(ctx):
                                   'and the packed differences overflow a byte' % norm(st.targets[0])))
         else:
             ctx.undec('R-ABSMAX', norm(st.targets[0]), wpk, 'not in the max(abs(.)) form: %s' % norm(st.value)[:60])
+    # ---- R-KSUM: the recorded checksum is the byte sum with end-around carry (modulo 255), as the ARL decoder recomputes it
+    ctx.rule('R-KSUM', 'pack2d: the checksum is the sum of the packed bytes reduced modulo 255 (end-around carry), not masked to eight bits')
+    ks = [st for st in iter_stmts(pk.body) if isinstance(st, ast.Assign) and norm(st.targets[0]) == 'KSUM' and not isinstance(st.value, ast.Constant)]
+    if not ks:
+        ctx.undec('R-KSUM', 'KSUM', wpk, 'no computed KSUM')
+    for st in ks[-1:]:
+        verdict = None
+        for n_ in walk_expr(st.value):
+            if isinstance(n_, ast.BinOp) and isinstance(n_.op, ast.Mod) and isinstance(n_.right, ast.Constant):
+                verdict = verdict or ('ok' if n_.right.value == 255 else 'modulo %r' % n_.right.value)
+            if isinstance(n_, ast.BinOp) and isinstance(n_.op, ast.BitAnd):
+                verdict = 'bit mask %s' % norm(n_)[-12:]
+            if isinstance(n_, ast.Call) and (dotted(n_.func) or '').split('.')[-1] in ('mod', 'remainder', 'fmod') and len(n_.args) == 2 and isinstance(n_.args[1], ast.Constant):
+                verdict = verdict or ('ok' if n_.args[1].value == 255 else 'modulo %r' % n_.args[1].value)
+        sums = any(isinstance(n_, ast.Call) and (dotted(n_.func) or norm(n_.func)).split('.')[-1] == 'sum' and 'CVAR' in norm(n_) for n_ in walk_expr(st.value))
+        if verdict == 'ok' and sums:
+            ctx.ok('R-KSUM', 'KSUM', wpk, norm(st)[:60])
+        elif verdict is None or not sums:
+            ctx.undec('R-KSUM', 'KSUM', wpk, 'not a reduction of CVAR.sum(): %s' % norm(st.value)[:60])
+        else:
+            ctx.violation(Finding('R-KSUM', RP, 'pack2d', st, 'the byte sum is reduced by %s instead of modulo 255: as soon as the sum reaches 256 the recorded checksum differs from the byte sum with end-around '
+                                  'carry that a reader of the record recomputes' % verdict))
+    # ---- R-STAMPFMT: the time of an index record is the YYMMDDHH part of the stamp; the forecast hour FF is no part of it
+    ctx.rule('R-STAMPFMT', 'reader: the YYMMDDHHFF stamp is cut to its first eight characters and parsed as %y%m%d%H (FF is the forecast hour, not minutes)')
+    ri = mod.func('arlpackedbit.__init__')
+    wri = 'src/PseudoNetCDF/%s arlpackedbit.__init__' % RP
+    nst = 0
+    renv = dict((s2.targets[0].id, s2.value) for s2 in iter_stmts(ri.body) if isinstance(s2, ast.Assign) and len(s2.targets) == 1 and isinstance(s2.targets[0], ast.Name))
+    for c in walk_expr(ri):
+        if not (isinstance(c, ast.Call) and isinstance(c.func, ast.Attribute) and c.func.attr == 'strptime' and len(c.args) == 2):
+            continue
+        fmt = const_str(c.args[1]) or (const_str(renv.get(c.args[1].id)) if isinstance(c.args[1], ast.Name) and c.args[1].id in renv else None)
+        nst += 1
+        cut = None
+        for n_ in walk_expr(c.args[0]):
+            if isinstance(n_, ast.Call) and isinstance(n_.func, ast.Attribute) and n_.func.attr == 'astype' and n_.args and const_str(n_.args[0]) and re.match(r'^[|<>=]?S(\d+)$', const_str(n_.args[0])):
+                cut = int(re.match(r'^[|<>=]?S(\d+)$', const_str(n_.args[0])).group(1))
+            if isinstance(n_, ast.Subscript) and isinstance(n_.slice, ast.Slice) and n_.slice.lower is None and isinstance(n_.slice.upper, ast.Constant) and n_.slice.step is None:
+                cut = n_.slice.upper.value
+        if fmt is None:
+            ctx.undec('R-STAMPFMT', 'strptime', wri, 'format is not a literal')
+            continue
+        direct = re.findall(r'%(.)', fmt)
+        if direct == ['y', 'm', 'd', 'H'] and cut == 8:
+            ctx.ok('R-STAMPFMT', 'strptime', wri, "first 8 characters parsed with '%s'" % fmt)
+        else:
+            ctx.violation(Finding('R-STAMPFMT', RP, 'arlpackedbit.__init__', api.stmt_of(c), "the stamp YYMMDDHHFF is parsed with '%s' from %s: the two characters after the hour are the forecast hour; read as part "
+                                  'of the time they shift the reference date and the hour offsets of the records' % (fmt, 'its first %s characters' % cut if cut else 'the whole field')))
+    ctx.floor('time stamp parses in the ARL reader', nst, 1)
     # ---- R-PACKROUND: both sweeps of pack2d convert a scaled difference to the packed integer in the same way (truncation, as the decoder expects)
     ctx.rule('R-PACKROUND', 'pack2d: the first-column sweep and the row sweep use the same conversion INT((value - previous) * SCEXP + 127.5)')
     ic = [st for st in iter_stmts(pk.body) if isinstance(st, ast.Assign) and norm(st.targets[0]) == 'ICVAL']
